@@ -143,6 +143,8 @@ def curated():
     # of the aligned payload is a run-time residue
     a(make('var_two_low_al', [P('p', 'u32'), P('v', 'u8'), P('p', 'u32'), P('v', 'u16', 4)], 'none'))
     a(make('var_two_low_al8', [P('p', 'u16'), P('v', 'u8'), P('p', 'u16'), P('v', 'f64', 8), P('p', 'u8')], 'alld'))
+    a(make('var_two_al8_low', [P('p', 'u64', 8), P('v', 'u8'), P('p', 'u32'), P('v', 'f32')], 'none'))
+    a(make('var_two_al4_low', [P('p', 'u32', 4), P('v', 'u8'), P('p', 'u16'), P('v', 'u16'), P('p', 'u8')], 'ae'))
     a(make('var_then_plain_al', [P('p', 'u16'), P('v', 'u16'), P('p', 'u32'), P('p', 'u32', 4), P('p', 'u8')], 'none'))
     # mixed
     a(make('mix_al', [P('f', 'f32', 16), P('p', 'u32'), P('p', 'u8', 8), P('v', 'u16', 8), P('p', 'ch')], 'ae'))
@@ -244,7 +246,7 @@ def layout_generated(seed, n):
     out = []
     i = 0
     types = ['u8', 'u16', 'u32', 'u64', 'f32', 'f64', 'by', 'pod12', 'pod5']
-    counts = ['u8', 'u16', 'u32', 'sz']
+    counts = ['u8', 'u16', 'u32', 'sz', 'u64']
     aligns = [0, 0, 0, 2, 4, 8, 16]
     while len(out) < n:
         h = hashlib.sha256(('layout:%d:%d' % (seed, i)).encode()).digest()
@@ -257,11 +259,12 @@ def layout_generated(seed, n):
         def varying():
             ct = counts[r.below(len(counts))]
             ca = aligns[r.below(len(aligns))]
-            if ct == 'sz' and ca and ca < 8:
+            if ct in ('sz', 'u64') and ca and ca < 8:
                 ca = 8
             return [P('p', ct, ca), any_param('v')]
 
-        family = r.below(4)
+        family = max(0, r.below(6) - 2)   # two-VaryingSize lists (family 0) are half of the population: most of the layout
+        # defects the seeded changes exposed needed that shape with one particular alignment relation
         params = []
         if family == 0:      # two VaryingSize, optional plain parameters between and behind
             params += varying()
